@@ -24,10 +24,11 @@ from ..common import call, codes, MachineryError
 D = Decimal
 # unit choices: (unit string, factor: literal = physical_in_base / factor)
 H_UNITS = [('kcal/mol', D(1)), ('kJ/mol', D(1) / D('4.184')), ('J/mol', D(1) / D(4184)),
-           ('cal/mol', D(1) / D(1000)), ('kJ/kmol', D(1) / D(4184)), ('mJ/umol', D(1) / D('4.184'))]
+           ('cal/mol', D(1) / D(1000)), ('kJ/kmol', D(1) / D(4184)), ('mJ/umol', D(1) / D('4.184')),
+           ('daJ/mol', D(1) / D('418.4'))]
 S_UNITS = [('cal/(mol*K)', D(1)), ('J/(mol*K)', D(1) / D('4.184')), ('kJ/(mol K)', D(1000) / D('4.184')),
            ('cal/mol/K', D(1)), ('mcal/(mmol K)', D(1)), ('J/mol/K', D(1) / D('4.184'))]
-T_UNITS = [('K', D(1)), ('kK', D(1000)), ('mK', D(1) / D(1000)), ('hK', D(100))]
+T_UNITS = [('K', D(1)), ('kK', D(1000)), ('mK', D(1) / D(1000)), ('hK', D(100)), ('daK', D(10))]
 H_VALUES = [D('-10.2'), D(0), D('0.5'), D('37.25'), D('-1.9')]
 S_VALUES = [D('30.41'), D(0), D('-12.07'), D('9.42')]
 CP_VALUES = [D('6.19'), D(0), D('9.4'), D('-0.6'), D('13.02')]
@@ -125,6 +126,10 @@ def write_lib(d, groups, units):
 
 def run(ctx):
     thorough = ctx.tier == 'thorough'
+    # what a unit name means does not depend on which names were looked up before it in the process
+    from pgradd.Units import eval_qty
+    for u in ('aJ', 'aK', 'acal', 'amol', 'mJ', 'kK'):
+        call(eval_qty, u)
     r0 = ctx.tlc('MC_LibLoad', 'MC_LibLoad.cfg', workers=8)
     ctx.log('MC_LibLoad: %d states, %d transitions' % (r0.distinct, r0.generated))
     ctx.extra['mc'] = {'distinct_states': r0.distinct, 'transitions': r0.generated}
@@ -186,6 +191,29 @@ def run(ctx):
                 events.append(ev)
                 meta.append((i, mode, c, '%s of datum %d' % (mode, i)))
                 loaded[(i, mode)] = c
+        # a file included by another one keeps its own default units
+        d = tempfile.mkdtemp(prefix='lib%d_' % nfile, dir=work)
+        nfile += 1
+        ka, kb = rng_.sample(range(4), 2)
+        groups = {'g%d' % i: present(data[i], 'default', rng_, DEFAULT_SETS[kb]) for i in batch[:4]}
+        with open(os.path.join(d, 'child.yaml'), 'w') as f:
+            yaml.safe_dump({'units': dict(DEFAULT_SETS[kb]), 'groups': {g: {'thermochem': t} for g, t in groups.items()}},
+                           f, default_flow_style=None, sort_keys=False)
+        with open(os.path.join(d, 'scheme.yaml'), 'w') as f:
+            f.write('patterns: []\n')
+        with open(os.path.join(d, 'library.yaml'), 'w') as f:
+            yaml.safe_dump({'units': dict(DEFAULT_SETS[ka]), 'include': ['child.yaml'],
+                            'groups': {'p0': {'thermochem': present(data[batch[0]], 'default', rng_, DEFAULT_SETS[ka])}}},
+                           f, default_flow_style=None, sort_keys=False)
+        kind, lib, _ = call(ll.GroupLibrary.Load, os.path.join(d, 'library.yaml'))
+        with open(os.path.join(d, 'child.yaml')) as f:
+            y = yaml.safe_load(f)
+        for i in batch[:4]:
+            g = 'g%d' % i
+            c = None if kind == 'error' else lib[g]['thermochem']
+            obs = ll.obs_of('error', lib) if kind == 'error' else ll.obs_of('value', c)
+            events.append({'doc': ll.doc_of(y['groups'][g]['thermochem']), 'defs': ll.defs_of(y.get('units')), 'obs': obs})
+            meta.append((i, 'included:%d' % nfile, c, 'datum %d in an included file with its own default units' % i))
         # a dimensional value with no unit available is rejected when loading
         d = tempfile.mkdtemp(prefix='lib%d_' % nfile, dir=work)
         nfile += 1
